@@ -1,0 +1,17 @@
+//go:build verif
+
+package port
+
+// VerifLen returns the number of per-process readers the port holds.
+func (p *InPort) VerifLen() int {
+	p.mu.RLock()
+	defer p.mu.RUnlock()
+	return len(p.readers)
+}
+
+// VerifLen returns the number of per-process writers the port holds.
+func (p *OutPort) VerifLen() int {
+	p.mu.RLock()
+	defer p.mu.RUnlock()
+	return len(p.writers)
+}
